@@ -10,7 +10,7 @@ Clauses
                    nearest-pixel oracle (NaN / False outside S), for the full product of per-axis bounds
   cache            for every sequence of requests (fresh caches per sequence, never cleared inside one) the result
                    with cache_id == the result without, at every step (data and links unchanged inside a sequence)
-  image / image-seq (thorough) ImageLayerState.get_sliced_data / ImageSubsetLayerState.get_sliced_data for every
+  image / image-seq ImageLayerState.get_sliced_data / ImageSubsetLayerState.get_sliced_data for every
                    (x axis, y axis, slices, view|bounds form) and for every sequence of viewer-state changes
                    (the layer state's uuid is the cache id) == the plane computed by the oracle
 The oracle is plain numpy on the model map (perm, a, b); selections are evaluated from their definition.
@@ -570,12 +570,13 @@ def all_cases(tier):
     for cfg in cache_configs(tier):
         for first in range(len(cache_alphabet(cfg))):
             cases.append(['seq', cfg, first, seq_len(tier)])
-    if tier == 'thorough':
-        for cfg in configs(tier):
-            if cfg['ab'] in ('unit', 'mixed'):
-                cases.append(['img', cfg])
-                for first in range(len(image_seq_alphabet(cfg))):
-                    cases.append(['imgseq', cfg, first, 3])
+    # the plane an image viewer shows (ImageLayerState / ImageSubsetLayerState.get_sliced_data): every
+    # (x, y, slices, attribute) single request in both tiers; viewer-state sequences of length 2 (quick) / 3 (thorough)
+    for cfg in configs(tier):
+        if cfg['ab'] in ('unit', 'mixed'):
+            cases.append(['img', cfg])
+            for first in range(len(image_seq_alphabet(cfg))):
+                cases.append(['imgseq', cfg, first, 3 if tier == 'thorough' else 2])
     return cases
 
 
